@@ -258,6 +258,7 @@ def r44(ctx):
 
 
 def run(ctx):
+    ctx.rule("R-4.6", "the weights of a step are recorded before the restart file of that step is written (nothing write_toml serialises - frac, the P-matrix stream - changes after it)", floor=1)
     ctx.rule("R-4.1", "who may write traj_data[...]['frac']", floor=4)
     ctx.rule("R-4.2", "accumulate only for idle live paths, after the finished job was inserted", floor=1)
     ctx.rule("R-4.3", "archive exactly once, only on replacement, removing the path from the live table before the commit", floor=5)
@@ -268,9 +269,13 @@ def run(ctx):
     ctx.attempt(r43, ctx)
     ctx.attempt(r44, ctx)
     ctx.attempt(r45, ctx)
+    from .shared import commit_is_final
+    ctx.attempt(commit_is_final, ctx, "R-4.6")
 
 
 VARIANTS = [
+    B("c04-record-weights-after-commit", REPEX, "        # record weights\n        locked_trajs = self.locked_paths()\n        if self._last_prob is None:\n            self.prob\n        for idx, live in enumerate(self.live_paths()):\n            if live not in locked_trajs:\n                self.traj_data[live][\"frac\"] += self._last_prob[:-1][idx, :]\n\n", "", "R-4.6", control=True, why="seeded C04_c",
+      also=[(REPEX, "        # save for possible restart\n        self.write_toml()\n\n        return md_items", "        # save for possible restart\n        self.write_toml()\n        locked_trajs = self.locked_paths()\n        if self._last_prob is None:\n            self.prob\n        for idx, live in enumerate(self.live_paths()):\n            if live not in locked_trajs:\n                self.traj_data[live][\"frac\"] += self._last_prob[:-1][idx, :]\n\n        return md_items")]),
     B("c04-frac-reset-in-sort", REPEX, "            self.swap(ens_idx, trj_idx)\n            needstomove", "            self.swap(ens_idx, trj_idx)\n            self.traj_data[self._trajs[ens_idx].path_number][\"frac\"] *= 0\n            needstomove", "R-4.1", control=True),
     B("c04-new-path-inherits-weights", REPEX, '                    "frac": np.zeros(self.n, dtype="longdouble"),', '                    "frac": self.traj_data[pn_old]["frac"],', "R-4.1"),
     B("c04-restore-ignores-file", REPEX, '                "frac": np.array(frac, dtype="longdouble"),\n            }\n        # add minus path:', '                "frac": np.zeros(size + 1, dtype="longdouble"),\n            }\n        # add minus path:', "R-4.1"),
